@@ -57,6 +57,9 @@ type interpreter struct {
 	heldLog            []string
 	initRoot           *ssa.Function
 	skipExternal       *ssa.Function
+	timers             map[*value]bool
+	syncMaps           map[*value]*omap
+	wg                 map[*value]int
 }
 
 type spawn struct {
